@@ -139,6 +139,12 @@ func expected(stream []byte, id string) ([]string, int, string, string) {
 	return ps, r.Errc, strings.Join(ss.R.BadURL, ","), strings.Join(ss.R.BadProto, ",")
 }
 
+func (s *server) forget(addr string) {
+	s.mu.Lock()
+	delete(s.onClose, addr)
+	s.mu.Unlock()
+}
+
 func (s *server) closes(addr string) int {
 	s.mu.Lock()
 	defer s.mu.Unlock()
@@ -157,6 +163,7 @@ func runCase(s *server, useTLS bool, id string, stream []byte, cuts []int, wantN
 		return nil, false, 0, err
 	}
 	local := c.LocalAddr().String()
+	s.forget(local) // the port may have been used by an earlier connection of this process
 	rest := stream
 	for len(rest) > 0 {
 		n := len(rest)
@@ -175,11 +182,24 @@ func runCase(s *server, useTLS bool, id string, stream []byte, cuts []int, wantN
 		}
 	}
 	if closeNow {
-		_ = c.Close()
+		// the client is done right after its last write: it closes its sending side (close_notify / FIN) and keeps
+		// reading. (A full close would make the server's response writes fail; a failed write closes the connection
+		// on the server side, and requests parsed after that are dropped by design — "the job wouldn't run if the
+		// connection is closed" — which made the set of handled requests depend on timing.)
+		switch cc := c.(type) {
+		case *stdtls.Conn:
+			_ = cc.CloseWrite()
+		case *net.TCPConn:
+			_ = cc.CloseWrite()
+		}
 		for i := 0; i < 300 && s.closes(local) == 0; i++ {
 			time.Sleep(10 * time.Millisecond)
 		}
+		for i := 0; i < 300 && len(s.paths(id)) < wantN; i++ {
+			time.Sleep(10 * time.Millisecond)
+		}
 		time.Sleep(50 * time.Millisecond)
+		_ = c.Close()
 		return s.paths(id), false, s.closes(local), nil
 	}
 	// a loaded machine may take long to run the handlers: give the expected requests up to 4 s to arrive (one-sided:
